@@ -225,6 +225,10 @@ class CFG:
                     out.append((h, lab))
         return out
 
+    def if_guards(self, n: int) -> List[tuple]:
+        """Control dependences of n on `if` headers only: [(if node, polarity)]."""
+        return [(h, lab) for h, lab in self.guards(n) if self.kind[h] == "if"]
+
     def describe(self, n: int) -> str:
         st = self.stmt[n]
         if st is None:
